@@ -286,7 +286,9 @@ def run_constraint(case, ctx: Ctx):
             back = _np(c.inverse_transform(t[idx]))
         sl = np.broadcast_to(_slope(base, cls, Rm, lo_b, hi_b), Rm.shape)
         mag = np.abs(tm) + np.where(deep, np.abs(Lm), scale)
-        tol = 1e-9 * np.maximum(1.0, np.abs(Rm)) + 64 * EPS * mag / np.maximum(sl, 1e-300)
+        with np.errstate(divide="ignore", over="ignore", invalid="ignore"):
+            # (no floor on the slope: bounds of magnitude 1e-293 are legitimate, an underflowed slope makes the tolerance infinite)
+            tol = 1e-9 * np.maximum(1.0, np.abs(Rm)) + np.where(sl > 0, 64 * EPS * mag / np.where(sl > 0, sl, 1.0), np.inf)
         err = np.abs(back - Rm)
         bad = ~(err <= tol) & resolvable
         ctx.check("inverse_of_transform", not bad.any(),
